@@ -77,7 +77,7 @@ pub fn property(id: &str) -> Option<PropertySpec> {
             id: "C07",
             rule: search::C07_RULE,
             assumptions: vec![ORACLE, SETUP, CAP, "a hang is caught by the watchdog and reported as inconclusive (exit 2), never as a violation"],
-            checks: vec![Box::new(search::C07Searches)],
+            checks: search::c07_checks(),
         },
         "C08" => PropertySpec {
             id: "C08",
